@@ -1,47 +1,9 @@
-(* Main theorems of C20 over Model/Session.v, from the per-operation preservation lemmas. *)
-From UV Require Import Base.Common Model.Session Proofs.SessionP Proofs.SessionBuildP Proofs.SessionHsP.
-
-Lemma step_ok : forall o w l i s l', world_ok w = true -> w_golang w = false -> invb w l i s = true ->
-  legal_step w l o = Some l' -> ok_after w l i s o l'.
-Proof.
-  intros o; destruct o.
-  - apply ok_SetCache.
-  - apply ok_BuildNoSess.
-  - apply ok_SetTicket.
-  - apply ok_SetPsk.
-  - apply ok_SetState.
-  - apply ok_Build.
-  - apply ok_Handshake.
-Qed.
-
-Fixpoint inj_fold (i : option inj) (ops : list op) : option inj :=
-  match ops with [] => i | o :: r => inj_fold (inj_next i o) r end.
-
-Lemma inj_fold_some x ops : inj_fold (Some x) ops = Some x.
-Proof. induction ops as [|o r IH]; simpl; auto. Qed.
-
-Lemma inj_fold_none ops : inj_fold None ops = injected ops.
-Proof.
-  induction ops as [|o r IH]; simpl; auto.
-  destruct (inj_of o) eqn:E; simpl.
-  - apply inj_fold_some.
-  - exact IH.
-Qed.
+(* Main statements of C20 over Model/Session.v.
+   HelloGolang: unbounded, from the invariant [invg] (SessionP.v).
+   Mimicking ClientHelloIDs: bounded, from the exhaustive sweep (SessionBoundedP.v). *)
+From UV Require Import Base.Common Model.Session Proofs.SessionP Proofs.SessionBoundedP.
 
 Definition no_panic (rs : list (res unit)) : Prop := Forall (fun r => is_panic r = false) rs.
-
-Lemma run_inv w : world_ok w = true -> w_golang w = false ->
-  forall ops l i s lf, invb w l i s = true -> legal_from w l ops = Some lf ->
-  no_panic (run w s ops) /\ invb w lf (inj_fold i ops) (final w s ops) = true.
-Proof.
-  intros W G ops. induction ops as [|o r IH]; intros l i s lf H L; simpl in *.
-  - injection L as <-. split; [constructor | exact H].
-  - destruct (legal_step w l o) as [l1|] eqn:E; [|discriminate].
-    pose proof (step_ok o w l i s l1 W G H E) as [Hp Hi].
-    destruct (step w o s) as [s1 x] eqn:Es; simpl in *.
-    destruct (IH l1 (inj_next i o) s1 lf Hi L) as [A B].
-    split; [constructor; assumption | exact B].
-Qed.
 
 Lemma run_inv_golang w : w_golang w = true ->
   forall ops l s lf, invg w l s = true -> legal_from w l ops = Some lf ->
@@ -56,88 +18,99 @@ Proof.
     split; [constructor; assumption | exact B].
 Qed.
 
-Lemma init_inv w : w_golang w = false -> invb w (linit w) None (init w) = true.
-Proof. destruct w; cbn; intros ->. destruct w_cache0; reflexivity. Qed.
 Lemma init_invg w : invg w (linit w) (init w) = true.
 Proof. destruct w; cbn. destruct w_cache0; reflexivity. Qed.
 
 Lemma legal_lf w ops : legal w ops = true -> exists lf, legal_from w (linit w) ops = Some lf.
 Proof. unfold legal. destruct (legal_from w (linit w) ops) as [lf|]; [eauto | discriminate]. Qed.
 
-(* ---- no assertion panic, any length ---- *)
-Theorem no_assert : forall w ops, world_ok w = true -> legal w ops = true -> no_panic (run w (init w) ops).
+(* HelloGolang: no assertion panic for legal histories of any length, any configuration, any argument bytes *)
+Theorem no_assert_golang : forall w ops, w_golang w = true -> legal w ops = true -> no_panic (run w (init w) ops).
 Proof.
-  intros w ops W L. destruct (legal_lf w ops L) as [lf E].
-  destruct (w_golang w) eqn:G.
-  - exact (proj1 (run_inv_golang w G ops _ _ lf (init_invg w) E)).
-  - exact (proj1 (run_inv w W G ops _ _ _ lf (init_inv w G) E)).
+  intros w ops G L. destruct (legal_lf w ops L) as [lf E].
+  exact (proj1 (run_inv_golang w G ops _ _ lf (init_invg w) E)).
 Qed.
 
-Lemma final_inv w ops : world_ok w = true -> w_golang w = false -> legal w ops = true ->
-  exists lf, legal_from w (linit w) ops = Some lf /\ invb w lf (injected ops) (final w (init w) ops) = true.
-Proof.
-  intros W G L. destruct (legal_lf w ops L) as [lf E]. exists lf. split; [exact E|].
-  rewrite <- inj_fold_none. exact (proj2 (run_inv w W G ops _ _ _ lf (init_inv w G) E)).
-Qed.
-
-Ltac split_conj := repeat match goal with H : _ && _ = true |- _ => apply andb_prop in H; destruct H end.
-
-(* ---- key-share private keys survive ---- *)
-Theorem keys_survive : forall w ops, world_ok w = true -> w_golang w = false -> legal w ops = true ->
+(* ... and its key share always has its private key once the hello exists *)
+Theorem keys_golang : forall w ops, w_golang w = true -> legal w ops = true ->
   let s := final w (init w) ops in
-  (status s = ByUtls -> applied s = true) /\
-  (applied s = true -> w_tls13 w = true -> exists g, keys s = Some g /\ share s = Some g).
+  status s = ByGo -> exists g, keys s = Some g /\ share s = Some g.
 Proof.
-  intros w ops W G L s. destruct (final_inv w ops W G L) as [lf [_ H]]. fold s in H.
-  unfold invb in H. split_conj.
-  split.
-  - intros St.
-    match goal with H : match status s with _ => _ end = true |- _ => rewrite St in H; cbn in H end.
-    split_conj. assumption.
-  - intros A T.
-    match goal with H : context [optN_eqb] |- _ => rewrite A, T in H; cbn in H end.
-    split_conj.
-    match goal with K : optN_eqb _ _ = true, S : is_some _ = true |- _ => revert K S end.
-    destruct (share s) as [g|], (keys s) as [k|]; cbn; intros K S; try discriminate.
+  intros w ops G L s St. destruct (legal_lf w ops L) as [lf E].
+  pose proof (proj2 (run_inv_golang w G ops _ _ lf (init_invg w) E)) as H. fold s in H.
+  unfold invg in H.
+  repeat match goal with H : _ && _ = true |- _ => apply andb_prop in H; destruct H end.
+  match goal with H : match status s with _ => _ end = true |- _ => rewrite St in H; cbn in H end.
+  repeat match goal with H : _ && _ = true |- _ => apply andb_prop in H; destruct H end.
+  match goal with K : optN_eqb _ _ = true, S : is_some _ = true |- _ => revert K S end.
+  destruct (share s) as [g|], (keys s) as [k|]; cbn; intros K S; try discriminate.
+  apply N.eqb_eq in K. subst. eauto.
+Qed.
+
+(* ---- bounded statements for every world of predefined-parrot shape ---- *)
+Section Bounded.
+  Variable w : world.
+  Variable ops : list op.
+  Hypothesis Hw : In w worlds.
+  Hypothesis Ho : In ops (lists_upto 4).
+
+  Lemma b_parts : forall lf, legal_from w (linit w) ops = Some lf ->
+    forallb (fun r => negb (is_panic r)) (run w (init w) ops) = true /\
+    (w_golang w || keys_ok w (final w (init w) ops)) = true /\
+    (w_golang w || wire_ok ops (final w (init w) ops)) = true /\
+    (w_golang w || forallb (fun o => negb (forbidden w lf o) || rejected (snd (step w o (final w (init w) ops)))) alphabet) = true.
+  Proof.
+    intros lf E. pose proof (check_hist_all w ops Hw Ho) as C. unfold check_hist in C. rewrite E in C.
+    repeat (apply andb_prop in C; destruct C as [C ?]). auto.
+  Qed.
+
+  Theorem no_assert_b : legal w ops = true -> no_panic (run w (init w) ops).
+  Proof.
+    intros L. destruct (legal_lf w ops L) as [lf E]. destruct (b_parts lf E) as [A _].
+    unfold no_panic. rewrite Forall_forall. rewrite forallb_forall in A.
+    intros r Hr. specialize (A r Hr). destruct (is_panic r); [discriminate | reflexivity].
+  Qed.
+
+  Theorem keys_b : legal w ops = true -> w_golang w = false ->
+    let s := final w (init w) ops in
+    applied s = true -> w_tls13 w = true -> exists g, keys s = Some g /\ share s = Some g.
+  Proof.
+    intros L G s A T. destruct (legal_lf w ops L) as [lf E]. destruct (b_parts lf E) as [_ [K _]].
+    rewrite G in K. cbn in K. fold s in K. unfold keys_ok in K. rewrite A, T in K. cbn in K.
+    apply andb_prop in K. destruct K as [S K]. revert S K.
+    destruct (share s) as [g|], (keys s) as [k|]; cbn; intros S K; try discriminate.
     apply N.eqb_eq in K. subst. eauto.
-Qed.
+  Qed.
 
-(* ---- the injected session is what the hello and HandshakeState carry ---- *)
-Theorem wire_ticket : forall w ops tk se, world_ok w = true -> w_golang w = false -> legal w ops = true ->
-  injected ops = Some (InjTicket tk se) ->
-  let s := final w (init w) ops in
-  status s = ByUtls ->
-  hs_sess s = se /\ hs_ticket s = tk /\ exists p, raw s = Some ([tk], p).
-Proof.
-  intros w ops tk se W G L J s St. destruct (final_inv w ops W G L) as [lf [_ H]]. fold s in H.
-  rewrite J in H. unfold invb in H. rewrite St in H. cbn in H. split_conj.
-  match goal with A : (hs_sess s =? se) = true |- _ => apply N.eqb_eq in A; rewrite A end.
-  match goal with A : bytes_eqb (hs_ticket s) tk = true |- _ => apply bytes_eqb_eq in A; rewrite A end.
-  match goal with A : match raw s with _ => _ end = true |- _ => revert A end.
-  destruct (raw s) as [[[|t [|? ?]] p]|]; intros A; try discriminate.
-  apply bytes_eqb_eq in A. subst. eauto.
-Qed.
+  Theorem wire_ticket_b : forall tk se, legal w ops = true -> w_golang w = false ->
+    injected ops = Some (InjTicket tk se) ->
+    let s := final w (init w) ops in
+    status s = ByUtls -> hs_sess s = se /\ hs_ticket s = tk /\ exists p, raw s = Some ([tk], p).
+  Proof.
+    intros tk se L G J s St. destruct (legal_lf w ops L) as [lf E]. destruct (b_parts lf E) as [_ [_ [Wi _]]].
+    rewrite G in Wi. cbn in Wi. fold s in Wi. unfold wire_ok in Wi. rewrite St, J in Wi. cbn in Wi.
+    apply andb_prop in Wi. destruct Wi as [Wi R]. apply andb_prop in Wi. destruct Wi as [A B].
+    apply N.eqb_eq in A. apply bytes_eqb_eq in B. revert R.
+    destruct (raw s) as [[[|t [|? ?]] p]|]; intros R; try discriminate.
+    apply bytes_eqb_eq in R. subst. eauto.
+  Qed.
 
-Theorem wire_psk : forall w ops lb se, world_ok w = true -> w_golang w = false -> legal w ops = true ->
-  injected ops = Some (InjPsk lb se) ->
-  let s := final w (init w) ops in
-  status s = ByUtls ->
-  hs_sess s = se /\ exists t, raw s = Some (t, Some lb).
-Proof.
-  intros w ops lb se W G L J s St. destruct (final_inv w ops W G L) as [lf [_ H]]. fold s in H.
-  rewrite J in H. unfold invb in H. rewrite St in H. cbn in H. split_conj.
-  match goal with A : (hs_sess s =? se) = true |- _ => apply N.eqb_eq in A; rewrite A end.
-  match goal with A : match raw s with _ => _ end = true |- _ => revert A end.
-  destruct (raw s) as [[t [d|]]|]; intros A; try discriminate.
-  apply bytes_eqb_eq in A. subst. eauto.
-Qed.
+  Theorem wire_psk_b : forall lb se, legal w ops = true -> w_golang w = false ->
+    injected ops = Some (InjPsk lb se) ->
+    let s := final w (init w) ops in
+    status s = ByUtls -> hs_sess s = se /\ exists t, raw s = Some (t, Some lb).
+  Proof.
+    intros lb se L G J s St. destruct (legal_lf w ops L) as [lf E]. destruct (b_parts lf E) as [_ [_ [Wi _]]].
+    rewrite G in Wi. cbn in Wi. fold s in Wi. unfold wire_ok in Wi. rewrite St, J in Wi. cbn in Wi.
+    apply andb_prop in Wi. destruct Wi as [A R]. apply N.eqb_eq in A. revert R.
+    destruct (raw s) as [[t [d|]]|]; intros R; try discriminate.
+    apply bytes_eqb_eq in R. subst. eauto.
+  Qed.
 
-(* ---- a forbidden call after a legal history is rejected ---- *)
-Theorem forbidden_rejected_after : forall w ops lf o, world_ok w = true -> w_golang w = false ->
-  legal_from w (linit w) ops = Some lf -> forbidden w lf o = true ->
-  rejected (snd (step w o (final w (init w) ops))) = true.
-Proof.
-  intros w ops lf o W G E F.
-  pose proof (proj2 (run_inv w W G ops _ _ _ lf (init_inv w G) E)) as H.
-  exact (forbidden_rejected o w lf _ _ W G H F).
-Qed.
+  Theorem forbidden_b : forall lf o, w_golang w = false -> legal_from w (linit w) ops = Some lf ->
+    In o alphabet -> forbidden w lf o = true -> rejected (snd (step w o (final w (init w) ops))) = true.
+  Proof.
+    intros lf o G E Io F. destruct (b_parts lf E) as [_ [_ [_ R]]].
+    rewrite G in R. rewrite Bool.orb_false_l in R. rewrite forallb_forall in R. specialize (R o Io). rewrite F in R. exact R.
+  Qed.
+End Bounded.
